@@ -143,9 +143,9 @@ def prelude():
 def cold_worker(job):
     """One (state, call id) evaluated alone in a fresh interpreter."""
     base, state, cid = job
-    code = ('import sys, json; sys.path[:0] = ["/repo", %r]; from props import c19; from engine.common import enc; '
+    code = ('import sys, json; sys.path[:0] = [%r, %r]; from props import c19; from engine.common import enc; '
             'pool = {c[0]: c for c in c19.call_pool()}; c = pool[%r]; c19.build_state(%r, %r); '
-            'print("RESULT" + json.dumps(enc(c19.do_call(c[1], c[2], %r))))') % (common.VERIF, cid, base, state, base)
+            'print("RESULT" + json.dumps(enc(c19.do_call(c[1], c[2], %r))))') % (common.REPO, common.VERIF, cid, base, state, base)
     p = subprocess.run([sys.executable, '-c', code], capture_output=True, text=True, timeout=120, env=dict(os.environ, PYTHONDONTWRITEBYTECODE='1'))
     for line in p.stdout.splitlines():
         if line.startswith('RESULT'):
